@@ -39,7 +39,8 @@ structure KState where
 /-- `KROMEReaction.initialize()` -/
 def KState.init : KState := ⟨"idx,r,r,r,p,p,p,p,tmin,tmax,rate".toList, [], []⟩
 
-def isComment (line : Str) : Bool := "#".toList.isPrefixOf line || "//".toList.isPrefixOf line
+/-- `line.lstrip().startswith(("#", "//"))` (since the fix of F30 leading blanks do not matter) -/
+def isComment (line : Str) : Bool := "#".toList.isPrefixOf (lstrip line) || "//".toList.isPrefixOf (lstrip line)
 def isFormat (line : Str) : Bool := "@format:".toList.isPrefixOf line
 def isVar (line : Str) : Bool := "@var".toList.isPrefixOf line
 def isCommon (line : Str) : Bool := "@common:".toList.isPrefixOf line
@@ -127,7 +128,7 @@ def readKrome : KState → List Str → KState × List KLine
     let (stf, rs) := readKrome st' ls
     (stf, match r with | some x => x :: rs | none => rs)
 
-/-- is the line a directive or comment (as `preprocessing` recognises them: at column 0 only) -/
+/-- is the line a directive or comment (as `preprocessing` recognises them: directives at column 0 only, comments after any blanks) -/
 def isDirective (line : Str) : Bool := isComment line || isFormat line || isVar line || isCommon line
 
 /-- encoder for the standard column layout `idx,R,R,R,P,P,P,P,Tmin,Tmax,rate` -/
